@@ -33,6 +33,7 @@ type fwdItem struct {
 	Argv []string
 	End  int64
 	DB   int // database it runs in / selects
+	InTx bool // inside a source transaction
 }
 
 // c04Forwarded is the reference list of forwarded items including SELECTs and PINGs.
@@ -48,6 +49,7 @@ func c04Forwarded(cfg syncConfig, word []int) []fwdItem {
 	}
 	db := cfg.StartDb
 	bypass := false
+	inTx := false
 	off := cfg.StartOffset
 	for i, w := range word {
 		s := syncSigma[w]
@@ -57,12 +59,16 @@ func c04Forwarded(cfg syncConfig, word []int) []fwdItem {
 		}
 		name := strings.ToLower(s.Argv[0])
 		switch name {
+		case "multi":
+			inTx = true
+		case "exec":
+			inTx = false
 		case "select":
 			n, _ := strconv.Atoi(s.Argv[1])
 			db = n
 			bypass = (cfg.DBFilter == 1 && n != 1) || (cfg.DBFilter == 2 && n == 1)
 			if !bypass {
-				out = append(out, fwdItem{Argv: []string{"select", s.Argv[1]}, End: off, DB: n})
+				out = append(out, fwdItem{Argv: []string{"select", s.Argv[1]}, End: off, DB: n, InTx: inTx})
 			}
 		case "ping":
 			if !bypass {
@@ -159,7 +165,8 @@ func c04Batches(c c04Case, recv []mredis.Cmd) (string, string) {
 				return "checkpoint-offset", fmt.Sprintf("batch ending with %q stores offset %d, the source offset after that command is %d", strings.Join(last.Argv, " "), hsetOffset, last.End)
 			}
 			for i, it := range batchItems {
-				if it.Argv[0] == "select" && i != 0 {
+				if it.Argv[0] == "select" && i != 0 && !it.InTx {
+					// (a source transaction that changes the database is necessarily one batch)
 					return "batch-spans-databases", "a SELECT in the middle of a batch: the checkpoint would be stored in only one of the databases"
 				}
 			}
@@ -219,8 +226,13 @@ func c04Cut(t *testing.T, c c04Case, recv []mredis.Cmd, cut int, finalData strin
 		return "dataset-vs-offset", fmt.Sprintf("cut after %d received commands: stored offset %d but the dataset is {%s}, the source history up to that offset gives {%s}", cut, stored,
 			strings.Replace(data, "\n", "; ", -1), strings.Replace(want, "\n", "; ", -1))
 	}
-	if stored < 0 || runid == "?" {
+	if stored < 0 {
 		return "", "fullsync"
+	}
+	if runid == "?" {
+		// batches are atomic and the first batch of a session in a database carries run id and
+		// version: a stored offset without them means this restart cannot resume
+		return "runid-missing", fmt.Sprintf("cut after %d commands: the newest checkpoint (offset %d) has no run id, the restart falls back to a full sync", cut, stored)
 	}
 	if runid != "run-1" {
 		return "runid", fmt.Sprintf("cut after %d commands: run id read back as %q", cut, runid)
@@ -334,12 +346,28 @@ func TestVerif_C04(t *testing.T) {
 	var n, trans, idx, ncuts int64
 	capped := false
 	var word []int
+	selectInTx := false
 	var rec func(cfg syncConfig)
+	var recOne func(cfg syncConfig)
 	rec = func(cfg syncConfig) {
 		if capped {
 			return
 		}
-		if len(word) > 0 && syncWellFormed(word) {
+		recOne(cfg)
+		if len(word) == maxLen {
+			return
+		}
+		for _, s := range symIdx {
+			word = append(word, s)
+			rec(cfg)
+			word = word[:len(word)-1]
+		}
+	}
+	recOne = func(cfg syncConfig) {
+		if capped {
+			return
+		}
+		if len(word) > 0 && syncWellFormedTx(word, selectInTx || ev.Thorough()) {
 			idx++
 			if ev.Mine(idx) {
 				if idx%16 == 0 && ev.OverBudget() {
@@ -349,7 +377,7 @@ func TestVerif_C04(t *testing.T) {
 				}
 				c := c04Case{Cfg: cfg, Word: append([]int{}, word...), Cut: -1}
 				d := dev
-				if len(word) == maxLen && !ev.Thorough() {
+				if len(word) == maxLen && !ev.Thorough() && !selectInTx {
 					d = 0
 				}
 				seqx.Explore(seqx.Options{MaxDev: d}, func(ch *seqx.Chooser) {
@@ -374,17 +402,44 @@ func TestVerif_C04(t *testing.T) {
 				})
 			}
 		}
-		if len(word) == maxLen {
-			return
-		}
-		for _, s := range symIdx {
-			word = append(word, s)
-			rec(cfg)
-			word = word[:len(word)-1]
-		}
 	}
 	for _, cfg := range cfgs {
 		rec(cfg)
+	}
+	// directed longer streams: transactions that change the database (generic enumeration: thorough only)
+	if !capped {
+		sym := func(name string) int {
+			for i, s := range syncSigma {
+				if s.Name == name {
+					return i
+				}
+			}
+			panic(name)
+		}
+		directed := [][]string{
+			{"MULTI", "select2", "INCR", "EXEC"},
+			{"MULTI", "SET", "select2", "INCR", "EXEC"},
+			{"MULTI", "select2", "INCR", "EXEC", "INCR"},
+			{"MULTI", "INCR", "select2", "RPUSH", "EXEC", "SELECT0", "INCR"},
+			{"SELECT1", "MULTI", "INCR", "SELECT0", "RPUSH", "EXEC", "APPEND"},
+			{"select2", "INCR", "MULTI", "SELECT0", "INCR", "select2", "EXEC", "INCR"},
+			{"MULTI", "SELECT1", "INCR", "EXEC", "INCR", "SELECT0", "INCR"},
+		}
+		for _, cfg := range cfgs {
+			for _, names := range directed {
+				word = word[:0]
+				for _, nm := range names {
+					word = append(word, sym(nm))
+				}
+				saveMax := maxLen
+				maxLen = len(word)
+				selectInTx = true
+				recOne(cfg)
+				selectInTx = false
+				maxLen = saveMax
+			}
+		}
+		word = word[:0]
 	}
 	ev.Eval(n)
 	ev.Trace(n)
